@@ -201,7 +201,7 @@ theorem fast_eq_slow_aux (c : Cfg) (h : WFFast c) (s t r : List Char)
       obtain ⟨rfl, rfl⟩ := hf
       obtain ⟨hs1, hs2⟩ := splitAt_spec c.q s pre post hs
       simp only [Bool.and_eq_true, Bool.or_eq_true] at hcond
-      obtain ⟨hA, hB⟩ := hcond
+      obtain ⟨⟨hA, hB⟩, _⟩ := hcond
       have hA' : post.head? ≠ some c.q ∨ c.isEsc c.q = false := by
         rcases hA with hA | hA
         · exact Or.inl (by simpa using hA)
